@@ -489,3 +489,21 @@ M("c07-positions-not-restored", "C07", "cola/libcola/colafd.cpp",
   "                    for (unsigned int i = 0; i < priorPos.size(); ++i)\n                    {\n                        vs[dim][i]->finalPosition = priorPos[i];",
   "                    for (unsigned int i = 1; i < priorPos.size(); ++i)\n                    {\n                        vs[dim][i]->finalPosition = priorPos[i];",
   mention=["MAKEFEASIBLE-PROTOCOL", "rollback"])
+
+# ---------------------------------------------------------------- C13
+M("c13-alpha-numerator-sign", "C13", "cola/libtopology/topology_constraints.cpp",
+  "    double numerator=w1 - g - u1 + p*(u1-v1);", "    double numerator=w1 + g - u1 + p*(u1-v1);", mention=["ALPHA-EXACT"])
+M("c13-alpha-denominator-term", "C13", "cola/libtopology/topology_constraints.cpp",
+  "    double denominator=u2-u1 + p*(u1-u2 + v2-v1) + w1-w2;", "    double denominator=u2-u1 + p*(u1-u2 + v2-v1) + w2-w1;", mention=["ALPHA-EXACT"])
+M("c13-scan-skips-straight", "C13", "cola/libtopology/topology_constraints.cpp",
+  "        TopologyConstraint* t=*i;\n        FILE_LOG(logDEBUG1)<<\"Checking topology constraint:\"<<t->toString();",
+  "        TopologyConstraint* t=*i;\n        if (dynamic_cast<StraightConstraint*>(t) && minT) continue;\n        FILE_LOG(logDEBUG1)<<\"Checking topology constraint:\"<<t->toString();",
+  mention=["SOLVE-MIN-ALPHA"])
+M("c13-full-step", "C13", "cola/libtopology/topology_constraints.cpp",
+  "            v->rect->moveCentreD(dim,v->posOnLine(dim, minTAlpha));", "            v->rect->moveCentreD(dim,v->posOnLine(dim, 1.0));", mention=["SOLVE-MIN-ALPHA"])
+M("c13-satisfy-only-after-move", "C13", "cola/libtopology/topology_constraints.cpp",
+  "    if(minTAlpha<1 && minT) {", "    if(minTAlpha<1 && minTAlpha>0 && minT) {", mention=["SOLVE-MIN-ALPHA"])
+M("c13-neutral-le", "C13", "cola/libtopology/topology_constraints.cpp",
+  "        if(tAlpha<minTAlpha) {\n            minTAlpha=tAlpha;\n            minT=t;", "        if(minTAlpha > tAlpha) {\n            minTAlpha=tAlpha;\n            minT=t;", expect="silent")
+M("c13-posonline-from-final", "C13", "cola/libtopology/topology_graph.cpp",
+  "    return i+alpha*d; ", "    return finalPos()-alpha*d; ", mention=["ALPHA-EXACT", "posOnLine"])
